@@ -21,7 +21,9 @@ for d in sorted(glob.glob(os.path.join(ROOT, "seeded", "*"))):
     keys = ", ".join(sorted(set(k.split(":")[0].split(" ")[0] for k in vk)))
     if not c:
         conf = "own change (reverts a repair), not from a sub-agent"
-    rows.append("| %s | %s | %s | %s | %s |" % (os.path.basename(d), m.get("property", ""), summ, conf, ("yes: " + keys) if m.get("detected_by_check") else "**no**"))
+    # "superseded": the change no longer manifests / applies because a later repair of the repository changed the code it lives in
+    caught = ("yes: " + keys) if m.get("detected_by_check") else ("no longer applicable: " + m["superseded"]) if m.get("superseded") else "**no**"
+    rows.append("| %s | %s | %s | %s | %s |" % (os.path.basename(d), m.get("property", ""), summ, conf, caught))
 p = os.path.join(ROOT, "DESIGN.md")
 s = open(p).read()
 table = "<!-- SEEDTABLE-BEGIN -->\n" + "\n".join(rows) + "\n<!-- SEEDTABLE-END -->"
